@@ -569,6 +569,10 @@ func countKnown(os []Obligation) int {
 	return n
 }
 
+// shared, when set, is a context whose loaded packages and SSA program the
+// next runCheck reuses (mode "check all": one load for every property).
+var shared *Ctx
+
 func runCheck(prop, tier string, fn func(*Ctx) (string, []string)) (code int) {
 	c := newCtx(prop, tier)
 	defer func() {
@@ -577,7 +581,13 @@ func runCheck(prop, tier string, fn func(*Ctx) (string, []string)) (code int) {
 			code = 2
 		}
 	}()
-	c.Load()
+	if shared != nil && len(shared.fatal) == 0 && shared.Pkgs != nil {
+		c.Pkgs, c.AllPkgs, c.Fset = shared.Pkgs, shared.AllPkgs, shared.Fset
+		shared.SSA()
+		c.prog, c.ssaPkgs = shared.prog, shared.ssaPkgs
+	} else {
+		c.Load()
+	}
 	if len(c.fatal) > 0 {
 		return c.Finish("load failed", nil)
 	}
